@@ -78,9 +78,10 @@ def main(argv=None):
             else:
                 viol.append(i)
 
+    hit_ids = {id(i) for i in hits}
     for i in insts:
         if args.verbose or i.verdict == BAD:
-            tag = {OK: "ok  ", BAD: "FAIL", NOTE: "note"}[i.verdict]
+            tag = "known" if id(i) in hit_ids else {OK: "ok  ", BAD: "FAIL", NOTE: "note"}[i.verdict]
             print(f"{tag} {i.loc}: {i.rule} [{i.anchor}] {i.construct} {('-- ' + i.detail) if i.detail else ''}")
     for i in hits:
         print(f"KNOWN-FINDING: property={prop} {i.rule} at {i.anchor}: {i.construct} -- {known_keys[i.key()].get('what', i.detail)}")
